@@ -36,7 +36,7 @@ func (c *Ctx) genRefinements(ct *Contract) ([]*FuncVC, []string) {
 	}
 	var out []*FuncVC
 	seen := map[string]bool{}
-	for _, cd := range c.implementers(iface, m, p.Types) {
+	for _, cd := range c.implementers(tn.Type(), m, p.Types) {
 		if len(cd.fn.Blocks) == 0 {
 			continue
 		}
